@@ -24,7 +24,8 @@ namespace vt
     class Trace
     {
     public:
-        explicit Trace(const std::string &path) : path_(path), f_(fopen(path.c_str(), "w"))
+        explicit Trace(const std::string &path, bool append = false)
+          : path_(path), f_(fopen(path.c_str(), append ? "a" : "w"))
         {
             if (!f_)
             {
